@@ -214,17 +214,38 @@ pub fn check(p: &Pool, hist: &[(usize, usize)], equal: bool, rep: &Report) -> us
         rep.violation("harness:record", "a reference record is not accepted by the decoder".into(), hist_json(p, hist, equal));
         return 0;
     }
-    let table = match run_table(&recs) {
+    judge_recs(&recs, &hist_json(p, hist, equal), rep)
+}
+
+/// A long history: `pattern` (pairs of aircraft and kind) repeated `times` times, time advancing by 3 s per record.
+/// Record values cycle through the pool's positions.
+pub fn check_periodic(p: &Pool, pattern: &[(usize, usize)], times: usize, rep: &Report) -> usize {
+    let depth = p.recs[0][0].len();
+    let mut owned: Vec<Rec> = Vec::with_capacity(pattern.len() * times);
+    for i in 0..pattern.len() * times {
+        let (a, k) = pattern[i % pattern.len()];
+        let Some(r) = p.recs[a][k][i % depth].as_ref() else {
+            rep.violation("harness:record", "a reference record is not accepted by the decoder".into(), json!({}));
+            return 0;
+        };
+        owned.push(Rec { msg: r.msg.clone(), ts: 1000.25 + 3.0 * i as f64, shown: r.shown.clone(), leaves: r.leaves.clone() });
+    }
+    let wit = json!({"periodic": true, "times": times, "kinds": if p.kinds.len() == kinds().len() { "all" } else { "core" }, "pattern": pattern.iter().map(|(a, k)| json!([format!("{:06x}", p.addrs[*a]), p.kinds[*k]])).collect::<Vec<_>>()});
+    judge_recs(&owned.iter().collect::<Vec<_>>(), &wit, rep)
+}
+
+fn judge_recs(recs: &[&Rec], witness: &Value, rep: &Report) -> usize {
+    let table = match run_table(recs) {
         Ok(t) => t,
         Err(e) => {
-            rep.violation(&format!("panic:{}", panic_class(&e)), format!("update_snapshot panicked: {e}"), hist_json(p, hist, equal));
+            rep.violation(&format!("panic:{}", panic_class(&e)), format!("update_snapshot panicked: {e}"), witness.clone());
             return 0;
         }
     };
-    let mut viol = |class: String, what: String| rep.violation(&class, what, hist_json(p, hist, equal));
+    let mut viol = |class: String, what: String| rep.violation(&class, what, witness.clone());
     // reference table
     let mut expect: BTreeMap<String, Vec<&Rec>> = BTreeMap::new();
-    for r in &recs {
+    for r in recs.iter().copied() {
         if let Some(k) = &r.shown {
             expect.entry(k.clone()).or_default().push(r);
         }
@@ -401,6 +422,43 @@ pub fn run(ctx: &Ctx, rep: &Report) {
         nontriv += m;
     }
     rep.part("core kinds, deeper", t2, json!({"kinds": core.kinds.len(), "depth": d_core}));
+    // long histories: every pattern of one or two (aircraft, core kind) records, repeated 6 / 20 / 70 / 300 times
+    // (counters, saturation, accumulating state); patterns of three records repeated 6 and 20 times
+    {
+        let per = pool(core_kinds(), 10, false);
+        let nk = per.kinds.len();
+        let mut pats: Vec<(Vec<(usize, usize)>, Vec<usize>)> = Vec::new();
+        for k0 in 0..nk {
+            pats.push((vec![(0, k0)], vec![6, 20, 70, 300]));
+            for a1 in 0..2 {
+                for k1 in 0..nk {
+                    pats.push((vec![(0, k0), (a1, k1)], vec![6, 20, 70, 300]));
+                    if ctx.thorough() || (k0 + k1) % 3 == 0 {
+                        for a2 in 0..=(a1 + 1) {
+                            for k2 in 0..nk {
+                                pats.push((vec![(0, k0), (a1, k1), (a2, k2)], vec![6, 20]));
+                            }
+                        }
+                    }
+                }
+            }
+        }
+        let cnt = AtomicU64::new(0);
+        par_items(ctx.threads, pats.len(), |i| {
+            let (pat, times) = &pats[i];
+            for t in times {
+                if stopped() {
+                    return;
+                }
+                check_periodic(&per, pat, *t, rep);
+                cnt.fetch_add(1, Ordering::Relaxed);
+            }
+        });
+        let c = cnt.load(Ordering::Relaxed);
+        total += c;
+        nontriv += c;
+        rep.part("periodic long histories (patterns of 1-3 records repeated up to 300 times)", c, json!({"patterns": pats.len()}));
+    }
     let eq = pool(core_kinds(), d_all, true);
     let mut t3 = 0;
     for len in 2..=d_all {
@@ -429,6 +487,19 @@ pub fn run(ctx: &Ctx, rep: &Report) {
 }
 
 pub fn replay(w: &Value, rep: &Report) {
+    if w["periodic"].as_bool() == Some(true) {
+        let per = pool(core_kinds(), 10, false);
+        let pat: Vec<(usize, usize)> = w["pattern"]
+            .as_array()
+            .map(|a| a.iter().filter_map(|x| Some((per.addrs.iter().position(|y| Some(format!("{y:06x}").as_str()) == x[0].as_str())?, per.kinds.iter().position(|y| Some(*y) == x[1].as_str())?))).collect())
+            .unwrap_or_default();
+        check_periodic(&per, &pat, w["times"].as_u64().unwrap_or(1) as usize, rep);
+        rep.trans(1);
+        rep.state(1);
+        rep.sample(w.clone());
+        rep.outcome("replayed", 1);
+        return;
+    }
     let equal = w["equal_stamps"].as_bool().unwrap_or(false);
     let ks = if w["kinds"].as_str() == Some("core") { core_kinds() } else { kinds() };
     let h: Vec<(String, String)> = w["history"].as_array().map(|a| a.iter().map(|x| (x[0].as_str().unwrap_or("").to_string(), x[1].as_str().unwrap_or("").to_string())).collect()).unwrap_or_default();
